@@ -351,6 +351,8 @@ pub fn c01_case(g: &mut Gen, id: u64, w: &mut impl Write, long: bool, peer: bool
     let mut d: i64 = 1;
     // keys that were given a right in each room (members of a group that grants something)
     let mut writers: Vec<Vec<u64>> = vec![vec![]; nrooms as usize];
+    // (group, key): keys made user admin of a group without being made room admin
+    let mut user_admins: Vec<Vec<(u64, u64)>> = vec![vec![]; nrooms as usize];
     // room definitions by key 1 (sometimes key 2 creates its own room)
     for r in 0..nrooms {
         let me = if r > 0 && g.chance(1, 4) { 2 } else { 1 };
@@ -379,6 +381,15 @@ pub fn c01_case(g: &mut Gen, id: u64, w: &mut impl Write, long: bool, peer: bool
             writers[r as usize].push(u2 as u64);
         }
         writers[r as usize].push(me);
+        // a user admin that is NOT a room admin (it may manage the users of its group, nothing else)
+        if g.chance(2, 3) && shadows[r as usize].ngroups > 0 {
+            let gi = g.below(shadows[r as usize].ngroups as usize) as u64;
+            let x = 3 + g.below(4) as u64;
+            if shadows[r as usize].groups[0].contains(&gi) && shadows[r as usize].used.insert((format!("g{}.ua", gi), x, d)) {
+                writeln!(w, "rmut k={} d={} r={} grp={} g{}.ua={}+", me, d, r, gi, gi, x).unwrap();
+                user_admins[r as usize].push((gi, x));
+            }
+        }
     }
     let steps = if long { 14 + g.below(14) } else { 8 + g.below(10) };
     // shadow of the data: handle -> (entity, room?, author), references
@@ -578,6 +589,58 @@ pub fn c01_case(g: &mut Gen, id: u64, w: &mut impl Write, long: bool, peer: bool
             _ => {
                 // the room definition changes: users disabled / enabled, rights replaced, admins changed
                 let r = g.below(nrooms as usize);
+                if !user_admins[r].is_empty() && g.chance(2, 5) {
+                    // a user admin (not room admin) tries to change the definition: itself / another key as admin,
+                    // rights, user admins (all need a room admin), users of its group (its own business)
+                    let (gi, x) = *g.pick(&user_admins[r]);
+                    let other = 2 + g.below(5) as u64;
+                    let sh = &mut shadows[r];
+                    let mut toks: Vec<String> = vec![];
+                    let mut grp: Vec<String> = vec![];
+                    match g.weighted(&[4, 2, 2, 2, 3, 2]) {
+                        0 => {
+                            if sh.used.insert(("adm".into(), x, d)) {
+                                toks.push(format!("adm={}+", x));
+                            }
+                        }
+                        1 => {
+                            if other != x && sh.used.insert(("adm".into(), other, d)) {
+                                toks.push(format!("adm={}+", other));
+                            }
+                        }
+                        2 => {
+                            let e = 1 + g.below(3) as u64;
+                            if sh.used.insert((format!("g{}.r", gi), e, d)) {
+                                grp.push(format!("g{}.r={}:1:1", gi, e));
+                            }
+                        }
+                        3 => {
+                            if other != x && sh.used.insert((format!("g{}.ua", gi), other, d)) {
+                                grp.push(format!("g{}.ua={}+", gi, other));
+                            }
+                        }
+                        4 => {
+                            if sh.used.insert((format!("g{}.u", gi), other, d)) {
+                                grp.push(format!("g{}.u={}{}", gi, other, if g.chance(1, 3) { "-" } else { "+" }));
+                            }
+                        }
+                        _ => {
+                            // itself as admin together with a legitimate change of its group's users
+                            if sh.used.insert(("adm".into(), x, d)) && sh.used.insert((format!("g{}.u", gi), other, d)) {
+                                toks.push(format!("adm={}+", x));
+                                grp.push(format!("g{}.u={}+", gi, other));
+                            }
+                        }
+                    }
+                    if !grp.is_empty() {
+                        toks.push(format!("grp={}", gi));
+                        toks.append(&mut grp);
+                    }
+                    if !toks.is_empty() {
+                        writeln!(w, "rmut k={} d={} r={} {}", x, d, r, toks.join(" ")).unwrap();
+                    }
+                    continue;
+                }
                 let me = if g.chance(3, 4) { 1 } else { k };
                 let prefix = format!("rmut k={} d={} r={}", me, d, r);
                 let l = shadows[r].mutation_with(g, 0, me, prefix, false, keys, d);
